@@ -14,7 +14,7 @@ CLAIM = ("Grammars are built as a clean-by-construction base plus at most one pl
          "class) must match it; clean bases must exit 0 for all four shells. The Lean model's verdict (Check.validate + later passes) is "
          "compared with the library's on every case. Proved for the model, for every grammar and shell (Props/C08.lean): "
          "rejects_no_variant, rejects_varying_names, rejects_slash_name, rejects_duplicate_plain, rejects_unknown_shell, "
-         "rejects_non_command_spec, rejects_duplicate_target_spec, rejects_cycle (a grammar with this mistake and none of the earlier-checked ones "
+         "rejects_non_command_spec, rejects_duplicate_target_spec, rejects_cycle with its converse cycle_verdict_real (a grammar with this mistake and none of the earlier-checked ones "
          "gets this class) and error_is_final (a validation error is the verdict of the whole pipeline, for every schedule).")
 NOTE = ("Open: the theorems for the classes decided later in the pipeline (cycle, spaces inside a word, non-tail placeholder, "
         "conflicting descriptions) and accepts_clean; for these the level is translation validation over generated cases. Trusted: the planted-mistake generator (the class it plants is the oracle), vh, translate.py label extraction.")
